@@ -199,6 +199,12 @@ def _evaluate(e, env, bits=64):
     if k == "call":
         name = e[1].rsplit("::", 1)[-1]
         fnk = "@fn:" + name
+        if name in ("remainder", "into_remainder") and fnk not in env and e[2] and e[2][0][0] == "call" and e[2][0][1].rsplit("::", 1)[-1] == "chunks_exact":
+            # what chunks_exact(n) leaves over: the tail of the slice
+            base_ = evaluate(e[2][0][2][0], env, bits)
+            n_ = evaluate(e[2][0][2][1], env, bits)
+            if isinstance(base_, list) and isinstance(n_, int) and n_ > 0:
+                return base_[len(base_) - len(base_) % n_:]
         if fnk in env:
             args_ = []
             for a in e[2]:
